@@ -25,7 +25,9 @@ EXPRS = ["1", "-1", "1.5", "1e400", "0x", "0xFFFFFFFFFFFFFFFFFFFFF", "\"s\"", "'
          "a as", "size(a)", "size()", "size(a, 0)", "size(a, -1)", "size(a, 'x')", "size(a, 99)", "dimensionIndex(a, 'x')", "dimensionIndex(a)",
          "dimensionCount(a)", "dimensionCount()", "foo(a)", "a[0]", "a[-1]", "a[99999999999999999999]", "a[x:0]", "a[x:0, x:1]", "a[0, 1, 2, 3]", "a[b]",
          "a[]", "a.b", "a.b.c", "a[0].b[1]", "(a", "a)", "a +", "+ a", "a ? b", "!switch a", "((((((((((a))))))))))", "a as float32 as int8 as string",
-         "size(size(a))", "a[size(a)]", "k0", "k1", "k0 + 1", "k1 + k2", "m[]", "b[x:1, y:2]", "a[x:0]", "v[3]", "a[1][2][3]", "size(a, 0, 1)", "\"" + "x" * 3000 + "\"", "a" * 3000]
+         "size(size(a))", "a[size(a)]", "k0", "k1", "k0 + 1", "k1 + k2", "m[]", "b[x:1, y:2]", "a[x:0]", "v[3]", "a[1][2][3]", "size(a, 0, 1)", "\"" + "x" * 3000 + "\"", "a" * 3000,
+         # diagnostics reported at a subscript argument (they used to name no file), index bounds of fixed shapes
+         "fv[5]", "fv[2]", "m[1]", "m['k']", "f[2, 0]", "f[1, 3]", "f[5, 5]", "a[y:0, x:1]", "fv[0] + f[1, 2] + m['k']", "fv[zz]", "m[zz]", "u[0]", "o[0]"]
 
 
 def mutate_text(text: str, r: random.Random) -> str:
